@@ -183,12 +183,16 @@ PROPS = {
         lemmas=[],
         functions=[M_SI + "_anonymize_value", M_SI + "_check_sensitive_item_format", M_SI + "_extract_enclosing_text",
                    M_SI + "replace_matching_item"] + GLUE_IO,
+        generators=[_ro.gen_catchall],
         standins=[("rt_files", "C07")],
         design_ref="7/C07",
         technique="contracts on "
-                  "_anonymize_value/_check_sensitive_item_format/_extract_enclosing_text/replace_matching_item and the "
-                  "pipeline trace of anonymize_io discharged by the pyvc VC generator (z3+cvc5); which token each of "
-                  "the 55 line regexes captures is checked bounded",
+                  "_anonymize_value/_check_sensitive_item_format/_extract_enclosing_text/replace_matching_item (every "
+                  "match of a line regex is replaced by the anonymization of its own secret group) and the pipeline "
+                  "trace of anonymize_io, discharged by the pyvc VC generator (z3+cvc5); regular-language obligations "
+                  "on the catch-all hash patterns (every well-formed $9$ / md5-crypt string lies in the pattern's "
+                  "language); which token each keyword regex captures is checked bounded, also over the ~190 sample "
+                  "line forms of the repository's own test data",
         text="Proved for all inputs: the replacement is head + pseudonym + tail where the pseudonym is the stored one or "
              "built from the lookup size and the format class (a function of FmtSpec(val), never of val's characters "
              "beyond its class and md5 salt length), the lookup only grows by one entry, reserved/empty values are "
@@ -309,7 +313,7 @@ PROPS = {
                    M_IP + "IpV6Anonymizer.__init__", M_SI + "_anonymize_value", M_SI + "_check_sensitive_item_format",
                    M_SI + "_extract_enclosing_text", M_SI + "AsNumberAnonymizer._generate_as_number_replacement",
                    M_JS + "juniper_nonrandom_encrypt", M_JS + "_gap_encode", M_AF + "FileAnonymizer.__init__",
-                   M_AF + "FileAnonymizer.anonymize_io", M_SI + "replace_matching_item", M_SI + "SensitiveWordAnonymizer.__init__", M_SI + "SensitiveWordAnonymizer._generate_sensitive_word_regex", M_SI + "SensitiveWordAnonymizer._get_or_generate_sensitive_word_replacement", M_SI + "AsNumberAnonymizer.__init__"],
+                   M_AF + "FileAnonymizer.anonymize_io", M_SI + "replace_matching_item", M_SI + "SensitiveWordAnonymizer.__init__", M_SI + "SensitiveWordAnonymizer._generate_sensitive_word_regex", M_SI + "SensitiveWordAnonymizer._get_or_generate_sensitive_word_replacement", M_SI + "AsNumberAnonymizer.__init__", M_AF + "anonymize_files@impl"],
         only=["#deterministic", "#frame", "post.2", "post.1"],
         standins=[("rt_files", "C13")],
         design_ref="7/C13",
@@ -368,7 +372,8 @@ PROPS = {
     "C16": dict(
         level="other",
         lemmas=[],
-        functions=[M_AF + "FileAnonymizer.anonymize_io", M_AF + "anonymize_files@impl", M_NC + "main"],
+        functions=[M_AF + "FileAnonymizer.anonymize_io", M_AF + "FileAnonymizer.anonymize_file",
+                   M_AF + "anonymize_files@impl", M_NC + "main"],
         generators=[_cli.gen_facade_covers_impl],
         standins=[("rt_files", "C16")],
         design_ref="7/C16",
@@ -378,14 +383,18 @@ PROPS = {
                   "writer, called once) by pyvc over an assumed model of os/open (E-os); what the OS leaves on disk and "
                   "that every non-hidden file is listed exactly once are checked bounded",
         text="Proved: a file whose reading fails leaves the shared secret lookup and the output stream untouched "
-             "(fault isolation at the stream level); in anonymize_files every (input, output) pair is the named pair or "
-             "the same non-hidden name under the same relative directory of input and output root, each iteration "
-             "opens only its own input for reading and its own output for writing and creates only the output's parent "
-             "directory, no failure of one file escapes the loop (only the initial rejection, before any open, and an "
-             "unwritable map file, after all files), and every entry point funnels into anonymize_io.  NOT decidable "
-             "by contracts within reach: what os.walk lists and what open/makedirs leave on disk (E-os is an assumed "
-             "model), completeness/multiplicity of the file list - bounded over generated trees with hidden files, "
-             "Unicode names, undecodable bytes early and late, pre-existing outputs and a directory in the way.",
+             "(fault isolation at the stream level); anonymize_file opens its input for reading and then its "
+             "output for writing, both the default way, and applies the stream function once; in anonymize_files "
+             "every (input, output) pair is the named pair or the same non-hidden name under the same relative "
+             "directory of input and output root, each iteration opens only its own input for reading and its own "
+             "output for writing (no newline/encoding option, as in anonymize_file) and creates only the output's "
+             "parent directory, one FileAnonymizer is built from the function's own arguments, no failure of one "
+             "file escapes the loop (only the initial rejection, before any open, and an unwritable map file, "
+             "after all files), and every entry point funnels into anonymize_io.  NOT decidable by contracts "
+             "within reach: what os.walk lists and what open/makedirs leave on disk (E-os is an assumed model), "
+             "completeness/multiplicity of the file list - bounded over generated trees with hidden files, Unicode "
+             "names, undecodable bytes early and late, pre-existing outputs, a directory in the way, five "
+             "spellings of the paths, and CRLF/CR/unterminated/Unicode files through all three entry points.",
         note="E-os (os.path.*, os.walk, os.makedirs, open as uninterpreted observations with a ghost call record)",
     ),
 }
